@@ -278,6 +278,9 @@ func makeScenario(rng *rand.Rand, idx int, thorough bool) *scenario {
 	return sc
 }
 
+// index file base names: volume discovery is by name (<base>.*.par2), so their spelling matters
+var p2Bases = []string{"arch", "backup", "data.tar", "a", "par2", "set.vol", "with space", "UPPER", "x.par2", "vol00+01"}
+
 // singularScenario builds a set in which exactly two slices are destroyed and only the
 // recovery volumes holding exponent 0 and exponents >= 255 survive, with the two slices chosen
 // (by search with the independent field) so that their constants agree in the 255th power:
@@ -365,13 +368,14 @@ func runP2Big(args []string) error {
 func runScenario(c *common, lg *tracelog.Log, rng *rand.Rand, idx int, sc *scenario) error {
 	dir := filepath.Join(c.dir, fmt.Sprintf("big-%d", idx))
 	defer os.RemoveAll(dir)
-	a, err := buildArch(dir, sc.names, sc.prot, sc.s, sc.r, sc.g, "arch")
+	bname := p2Bases[idx%len(p2Bases)]
+	a, err := buildArch(dir, sc.names, sc.prot, sc.s, sc.r, sc.g, bname)
 	if err != nil {
 		return err
 	}
 	a.Others["readme.txt"] = []byte("bystander")
 	a.Others["other/deep/file.bin"] = []byte{9, 9, 9}
-	a.Others["arch.stray.par2"] = []byte{} // matches <base>.*.par2 but holds no packet of the set
+	a.Others[bname+".stray.par2"] = []byte{} // matches <base>.*.par2 but holds no packet of the set
 	{
 		// what Create did: it may only create <base>.par2 and <base>.volNN+MM.par2
 		unexpected := []string{}
@@ -420,12 +424,12 @@ func runScenario(c *common, lg *tracelog.Log, rng *rand.Rand, idx int, sc *scena
 	// name, a copy of the index): the set of DISTINCT intact blocks is what counts
 	if len(vols) > 0 && rng.Intn(3) == 0 {
 		v := vols[rng.Intn(len(vols))]
-		if err := sandbox.WriteFile(filepath.Join(dir, "arch.dup"+fmt.Sprint(rng.Intn(9))+".par2"), a.VolB[v]); err != nil {
+		if err := sandbox.WriteFile(filepath.Join(dir, bname+".dup"+fmt.Sprint(rng.Intn(9))+".par2"), a.VolB[v]); err != nil {
 			return err
 		}
 		dmg = append(dmg, "duplicate of volume "+v+" under another name")
 		if rng.Intn(2) == 0 {
-			if err := sandbox.WriteFile(filepath.Join(dir, "arch.idxcopy.par2"), a.IndexB); err != nil {
+			if err := sandbox.WriteFile(filepath.Join(dir, bname+".idxcopy.par2"), a.IndexB); err != nil {
 				return err
 			}
 		}
